@@ -116,7 +116,7 @@ func genMarkupDoc(r *RNG) markupDoc {
 	d := markupDoc{}
 	p := m.p
 	pfx := "og"
-	switch r.Intn(6) {
+	switch r.Intn(7) {
 	case 0:
 		d.HtmlAttrs = ` prefix="og: http://ogp.me/ns# article: http://ogp.me/ns/article#"`
 	case 1:
@@ -124,6 +124,8 @@ func genMarkupDoc(r *RNG) markupDoc {
 		pfx = "ogp"
 	case 2:
 		d.HtmlAttrs = ` xmlns:og="http://ogp.me/ns#"`
+	case 3:
+		d.HtmlAttrs = ` prefix="og: http://ogp.me/ns# fb: http://ogp.me/ns/fb#"`
 	}
 	if p(4) {
 		ogtype := []string{"article", "profile", "website", "Article"}[r.Intn(4)]
@@ -292,6 +294,8 @@ func genMarkupDoc(r *RNG) markupDoc {
 func genCanonMarkupDoc(r *RNG, k int) markupDoc {
 	m := &mgen{r: r}
 	d := markupDoc{Canon: true}
+	d.HtmlAttrs = []string{"", "", ` prefix="og: http://ogp.me/ns#"`, ` prefix="og: http://ogp.me/ns# fb: http://ogp.me/ns/fb#"`, ` prefix="og: http://ogp.me/ns# article: http://ogp.me/ns/article# video: http://ogp.me/ns/video#"`,
+		` xmlns:og="http://ogp.me/ns#" xmlns:fb="http://ogp.me/ns/fb#"`, ` lang="en" prefix="fb: http://ogp.me/ns/fb# og: http://ogp.me/ns#"`}[r.Intn(7)]
 	reqMask := k % 16       // bit0 title, bit1 type, bit2 url, bit3 image (1 = present)
 	srcMask := (k / 16) % 8 // bit0 og, bit1 so, bit2 ie
 	ogType := []string{"article", "article", "website", "ARTICLE"}[(k/128)%4]
@@ -413,13 +417,18 @@ func genCanonMarkupDoc(r *RNG, k int) markupDoc {
 			so.publisher = holder
 			sb.WriteString(`<div itemprop="copyrightHolder" itemscope itemtype="http://schema.org/Organization"><span itemprop="legalName">` + holder + `</span></div>`)
 		}
-		switch r.Intn(3) {
+		switch r.Intn(5) {
 		case 0:
 			so.author = m.tok("SOA")
 			sb.WriteString(`<span itemprop="author">` + so.author + `</span>`)
 		case 1:
 			so.author = m.tok("SOC")
 			sb.WriteString(`<span itemprop="creator">` + so.author + `</span>`)
+		case 2:
+			// an item of a type that is not Person/Organization supplies no author
+			sb.WriteString(`<span itemprop="author" itemscope itemtype="http://schema.org/MusicGroup">by ` + m.tok("SOUNS") + `</span>`)
+		case 3:
+			sb.WriteString(`<div itemprop="author" itemscope itemtype="https://schema.org/Person"><span itemprop="name">` + m.tok("SOUNS") + `</span></div>`)
 		}
 		year := ""
 		if p(2) {
